@@ -160,6 +160,9 @@ func debugFunc(sub string, keep, verbose bool, timeout int) int {
 		}
 		results = append(results, ld.verifyFunction(c))
 	}
+	if strings.HasPrefix(sub, "static:") {
+		results = append(results, ld.staticScans(strings.TrimPrefix(sub, "static:"))...)
+	}
 	for _, l := range ld.cs.Lemmas {
 		if strings.Contains("lemma:"+l.Name, sub) {
 			results = append(results, ld.verifyLemma(l))
@@ -202,6 +205,9 @@ func debugFunc(sub string, keep, verbose bool, timeout int) int {
 			fmt.Printf("  %s %-70s q=%d triv=%d %.2fs", status, o.Name, len(o.Queries), o.Trivial, secs)
 			if o.Failed != nil {
 				fmt.Printf("  [%s by %s] %s", o.Failed.Verdict, o.Failed.Solver, o.Failed.Desc)
+			}
+			if o.Static {
+				fmt.Printf("  %s", o.Detail)
 			}
 			fmt.Println()
 			if o.Failed != nil && verbose && o.Failed.Model != "" {
